@@ -202,6 +202,8 @@ pub struct SyncSess {
     pub a_view_at_open: BTreeSet<CmdId>,
     /// Received commands the requester lacked at open.
     pub delivered_missing: usize,
+    /// The responder holds at least one command of the request's sample.
+    pub sample_shared: bool,
 }
 
 /// Observation used by C01: what a replica exposed for a given committed set.
